@@ -10,6 +10,11 @@ R: the same TLC run dumps every grid case with the spec's expected result; each 
    to depth D (observers at the end), every path to depth D-1 with all read-only /
    refused calls after each step, each followed by draining the queue; then a walk
    covering every (state, call) pair of the graph and random walks.
+   Deep queues (7-12 pending events, heap levels 3-4) cannot be enumerated: seeded random histories
+   (fill, removals / re-timings in the middle that avoid the root and the last insert, full
+   drain) are executed on the real queue; TLC validates every recorded call + answer of a few
+   hundred histories against the EventQueue actions (code -> spec) and judges the pop runs of
+   several thousand on KeyLe; `tlc -simulate` checks the invariants on the same constants.
 T: boundary and random magnitudes up to 2^53 us are executed on the real class;
    operands and results go to JSON as limbs and TLC evaluates ErdosTime!RecFailed on
    every record.  Values just above 2^53 are run the same way and only reported
@@ -71,6 +76,16 @@ QUEUE_CFG = {
         "Times": {(1, "ms"), (1000, "us"), (2000, "us")},
         "QTypes": {3, 5, 11, 13, 14},
         "MaxQ": 4,
+    },
+    # deep queues (7-11 pending events: heap levels 3-4).  Far too many states to enumerate:
+    # random histories are executed on the real queue and the recorded calls + answers are
+    # validated step by step against the spec (code -> spec), plus `tlc -simulate` on the spec
+    "deep": {
+        "Evs": [E(3, 1), E(3, 2), E(5, 1), E(5, 2), E(1, 1), E(7, 2), E(11), E(11), E(12), E(13), E(6), E(14)],
+        "Times": {(x, "us") for x in (0, 5, 10, 25, 30, 50, 75, 100, 110, 120, 150, 200, 250, 300, 500, 750, 999,
+                                      1000, 1001, 1500, 2000, 2500, 3000)} | {(1, "ms"), (2, "ms"), (3, "ms")},
+        "QTypes": {0, 1, 3, 5, 6, 7, 11, 12, 13, 14},
+        "MaxQ": 12,
     },
     # model-checked only (thorough tier)
     "wide_thorough": {
@@ -743,10 +758,11 @@ class QueueAdapter:
                 return "PopRefused", []
             i = self._id(ev)
             self.pops_after[self.last_mut] += 1
-            key = self.keytab[(i, self.tm[i])]
-            if self.last is not None and key[:2] < self.last[0][:2] and len(self.order_violations) < 50:
-                self._order_violation(key, f"Pop({i})")
-            self.last = (key, f"Pop({i})")
+            if self.keytab is not None:
+                key = self.keytab[(i, self.tm[i])]
+                if self.last is not None and key[:2] < self.last[0][:2] and len(self.order_violations) < 50:
+                    self._order_violation(key, f"Pop({i})")
+                self.last = (key, f"Pop({i})")
             return "Pop", [i]
         if call == "Peek":
             ev = self.q.peek()
@@ -811,10 +827,291 @@ def _queue_verdicts(res, divs, orders):
         res.violate(
             "C16.pop_order",
             f"EventQueue ({v['model']}): successive pops went backwards in (time us, type): {v['first']} "
-            f"{v['first_key_us_type']} then {v['then']} {v['then_key_us_type']} on path {v['path']}",
+            f"{v['first_key_us_type']} then {v['then']} {v['then_key_us_type']} on history {v['path']}",
             v,
             key=f"EventQueue:C16.pop_order:{';'.join(v['path'])}",
         )
+
+
+# ---------------------------------------------------------------------------
+# EventQueue, deep queues: T (recorded histories of the real queue validated by TLC)
+
+
+def _lab(name, args):
+    from .c16_replay import fmt
+
+    return fmt(name, args)
+
+
+def gen_queue_traces(cname, n, rnd):
+    """n random histories on a real EventQueue: fill to 7..11 pending events (adds with a few
+    re-timings), disturb the middle (removals that avoid the root and the event added last
+    where possible, re-timings, a late add), then drain to empty; once or twice per history.
+    Returns [[(name, args) outcome per call]]."""
+    cfg = QUEUE_CFG[cname]
+    ad = QueueAdapter(cfg, None)
+    ids = list(range(1, len(cfg["Evs"]) + 1))
+    times = sorted(cfg["Times"])
+    qtypes = sorted(cfg["QTypes"])
+    traces = []
+    for _ in range(n):
+        ad.fresh()
+        steps, inq = [], []
+
+        def do(call, inp):
+            try:
+                out = ad.invoke(call, inp)
+            except Exception as ex:  # noqa: an answer the spec has no action for
+                out = ("Raised", [call, repr(ex)[:120]])
+            steps.append((out[0], list(out[1])))
+            if out[0] == "Add":
+                inq.append(out[1][0])
+            elif out[0] in ("Remove", "Pop") and out[1][0] in inq:
+                inq.remove(out[1][0])
+            return out
+
+        def observe():
+            if rnd.random() < 0.5:
+                do("Peek", ())
+            else:
+                do("NextOfType", (rnd.choice(qtypes),))
+
+        def retime():
+            i = rnd.choice(inq)
+            do("Retime", (i, rnd.choice([t for t in times if t != ad.tm[i]])))  # a different value (maybe the same instant)
+
+        def add():
+            absent = [i for i in ids if i not in inq]
+            if absent:
+                do("Add", (rnd.choice(absent), rnd.choice(times)))
+
+        def remove_middle():
+            top = do("Peek", ())
+            root = top[1][0] if top[0] == "Peek" else None
+            cands = [i for i in inq if i != root and i != inq[-1]] or list(inq)
+            if cands:
+                do("Remove", (rnd.choice(cands),))
+
+        for _round in range(rnd.randint(1, 2)):
+            target = rnd.randint(7, min(cfg["MaxQ"], len(ids)) - 1)
+            while len(inq) < target and len(steps) < 150:
+                r = rnd.random()
+                if r < 0.78 or len(inq) < 2:
+                    add()
+                elif r < 0.92:
+                    retime()
+                else:
+                    observe()
+            # the middle of the queue is disturbed; a removal / re-timing that leaves the heap broken
+            # is only visible if nothing re-heapifies before the drain, so most rounds use one kind
+            mode = rnd.choice(["remove", "remove", "retime", "mixed", "remove+add"])
+            for _k in range(rnd.randint(1, 4)):
+                r = rnd.random()
+                if mode == "remove" or (mode == "remove+add" and r < 0.6) or (mode == "mixed" and r < 0.5):
+                    if inq:
+                        remove_middle()
+                elif mode == "retime" or (mode == "mixed" and r < 0.85):
+                    if inq:
+                        retime()
+                else:
+                    add()
+            if rnd.random() < 0.3:
+                absent = [i for i in ids if i not in inq]
+                if absent:
+                    do("Remove", (rnd.choice(absent),))
+            while len(steps) < 300:
+                if rnd.random() < 0.15:
+                    observe()
+                if len(inq) > 2 and rnd.random() < 0.06:
+                    remove_middle()
+                if do("Pop", ())[0] != "Pop":
+                    break
+            do("Peek", ())
+        traces.append(steps)
+    return traces
+
+
+def _trace_json(steps):
+    out = []
+    for name, args in steps:
+        s = {"op": name, "i": 0, "ty": 0, "t": [0, "us"]}
+        if name in ("Add", "Retime"):
+            s["i"], s["t"] = args[0], list(args[1])
+        elif name in ("Remove", "RemoveRefused", "Pop", "Peek"):
+            s["i"] = args[0]
+        elif name == "NextOfType":
+            s["ty"], s["i"] = args
+        elif name == "NextOfTypeNone":
+            s["ty"] = args[0]
+        out.append(s)
+    return out
+
+
+TRACE_DEFS = """
+Traces == JsonDeserialize("%s")
+VARIABLES tid, pos
+TStep(s) ==
+    \\/ (s.op = "Add" /\\ Add(s.i, s.t))
+    \\/ (s.op = "Retime" /\\ Retime(s.i, s.t))
+    \\/ (s.op = "Remove" /\\ Remove(s.i))
+    \\/ (s.op = "RemoveRefused" /\\ RemoveRefused(s.i))
+    \\/ (s.op = "Pop" /\\ Pop(s.i))
+    \\/ (s.op = "PopRefused" /\\ PopRefused)
+    \\/ (s.op = "Peek" /\\ Peek(s.i))
+    \\/ (s.op = "PeekNone" /\\ PeekNone)
+    \\/ (s.op = "NextOfType" /\\ NextOfType(s.ty, s.i))
+    \\/ (s.op = "NextOfTypeNone" /\\ NextOfTypeNone(s.ty))
+TraceStep == /\\ pos >= 0 /\\ pos < Len(Traces[tid])
+             /\\ TStep(Traces[tid][pos + 1])
+             /\\ pos' = pos + 1 /\\ tid' = tid
+\\* the recorded answer is not an enabled action of the spec: report where, and what a pop may return
+Stuck == /\\ pos >= 0 /\\ pos < Len(Traces[tid]) /\\ ~ENABLED TraceStep
+         /\\ PrintT(<<"@@stuck", tid, pos + 1>>)
+         /\\ PrintT(<<"@@allowed", tid, {e.id : e \\in MinSet(q)}>>)
+         /\\ pos' = 0 - 1 /\\ tid' = tid /\\ UNCHANGED vars
+TInit == Init /\\ tid \\in 1..Len(Traces) /\\ pos = 0
+TNext == TraceStep \\/ Stuck
+\\* maximal runs of pops without an add / re-timing in between, of every recorded history: successive
+\\* pops must not go backwards in (time, type priority)
+Runs == JsonDeserialize("%s")
+PoppedEv(p) == [tm |-> p.t, ty |-> Evs[p.i].ty]
+ASSUME \\A k \\in 1..Len(Runs) : \\A j \\in 1..(Len(Runs[k].pops) - 1) :
+          KeyLe(PoppedEv(Runs[k].pops[j]), PoppedEv(Runs[k].pops[j + 1]))
+          \\/ PrintT(<<"@@backwards", Runs[k].h, Runs[k].pops[j + 1].p,
+                       ET!Us(Runs[k].pops[j].t), Evs[Runs[k].pops[j].i].ty,
+                       ET!Us(Runs[k].pops[j + 1].t), Evs[Runs[k].pops[j + 1].i].ty>>)
+ASSUME PrintT(<<"@@runs", Len(Runs)>>)
+"""
+
+
+class _Div:
+    def __init__(self, label, path):
+        self.label, self.path = label, path
+
+
+def _pop_runs(h, steps):
+    """Maximal runs of >= 2 pops with no add / re-timing in between: [{h, pops: [{i, t, p}]}] (p = step
+    number of the pop), plus statistics."""
+    runs, cur, tm = [], [], {}
+    for j, (n_, a) in enumerate(steps):
+        if n_ in ("Add", "Retime"):
+            tm[a[0]] = list(a[1])
+            if len(cur) > 1:
+                runs.append({"h": h, "pops": cur})
+            cur = []
+        elif n_ == "Pop" and a[0] in tm:
+            cur.append({"i": a[0], "t": tm[a[0]], "p": j + 1})
+    if len(cur) > 1:
+        runs.append({"h": h, "pops": cur})
+    return runs
+
+
+def _queue_traces_job(scratch, tier, cname, name, n_full, n_order, salt):
+    """Execute random deep histories on the real queue.  TLC (a) accepts or rejects every recorded
+    step of the first n_full histories (EventQueue actions, the answer is a parameter) and (b) judges
+    the pop runs of all n_full + n_order histories on the (time, type priority) key."""
+    res = CheckResult(PID, tier)
+    cfg = QUEUE_CFG[cname]
+    traces = gen_queue_traces(cname, n_full + n_order, rng(f"c16:traces:{salt}"))
+    full = traces[:n_full]
+    path = os.path.join(scratch, f"queue_traces_{name}.json")
+    with open(path, "w") as f:
+        json.dump([_trace_json(t) for t in full], f)
+    runs = [r_ for h, t in enumerate(traces) for r_ in _pop_runs(h + 1, t)]
+    rpath = os.path.join(scratch, f"queue_runs_{name}.json")
+    with open(rpath, "w") as f:
+        json.dump(runs, f)
+    mod, cf = mcgen.write_mc(
+        scratch, "EventQueue", _queue_consts(cfg), name=f"MC_EventQueueTrace_{name}", init_next=("TInit", "TNext"),
+        invariants=["TypeOK", "C16_FloorBelowAll", "C16_MinIsKeyMin"], properties=["C16_PopOrder"],
+        extends="Json", extra_defs=TRACE_DEFS % (path, rpath),
+    )  # fmt: skip
+    r = tlc.run_tlc(mod, cf, workers=1, java_opts=JOPTS, timeout=3000, coverage=False)
+    res.add_tlc(f"EventQueue/{cname}-traces-{name}", r)
+    if not r.ok:
+        _spec_violation(res, r, f"EventQueue trace validation ({cname})", QUEUE_CLAUSE, "C16.pop_min")
+        return res
+    seen_runs = _printed(r, "@@runs")
+    if not seen_runs or seen_runs[0][0] != len(runs):
+        raise tlc.TLCMachineryError(f"pop-run validation: TLC saw {seen_runs} of {len(runs)} runs")
+    stuck = {tid: pos for tid, pos in _printed(r, "@@stuck")}
+    allowed = {tid: sorted(ids) for tid, ids in _printed(r, "@@allowed")}
+    expect_states = sum((stuck[k + 1] + 1) if k + 1 in stuck else len(t) + 1 for k, t in enumerate(full))
+    if r.distinct != expect_states:
+        raise tlc.TLCMachineryError(f"trace validation: TLC found {r.distinct} states, expected {expect_states} ({len(stuck)} stuck)")
+
+    def labels_of(steps):
+        return [(f"{a[0]} raised {a[1]}" if n_ == "Raised" else _lab(n_, a)) for n_, a in steps]
+
+    divs, orders = [], []
+    backwards = sorted({tuple(b) for b in _printed(r, "@@backwards")})
+    for h, p, us1, ty1, us2, ty2 in sorted(backwards, key=lambda b: (b[1], b[0]))[:30]:
+        labels = labels_of(traces[h - 1])
+        prev = max(j for j in range(p - 1) if traces[h - 1][j][0] == "Pop")
+        orders.append({"path": labels[:p], "first": labels[prev], "first_key_us_type": [us1, ty1], "then": labels[p - 1],
+                       "then_key_us_type": [us2, ty2], "model": cname, "rest_of_history": labels[p:]})  # fmt: skip
+    qlens, removes_at = collections.Counter(), collections.Counter()
+    for steps in traces:
+        size = 0
+        for n_, a in steps:
+            if n_ == "Add":
+                size += 1
+            elif n_ == "Remove":
+                removes_at[size] += 1
+                size -= 1
+            elif n_ == "Pop":
+                qlens[size] += 1
+                size -= 1
+    for k, pos in sorted(stuck.items()):
+        steps = full[k - 1]
+        labels = labels_of(steps)
+        name_, args = steps[pos - 1]
+        lab = labels[pos - 1]
+        if name_ == "Raised":
+            dlabel, kind, exp = args[0], "exception", None
+        else:
+            dlabel, kind = lab, "outcome"
+            exp = (
+                [f"{name_}({i})" for i in allowed.get(k, [])]
+                if name_ in ("Pop", "Peek")
+                else ["(not an enabled action of the spec in this state)"]
+            )
+        divs.append({"path": labels[:pos], "label": lab, "kind": kind, "fields": ["outcome_not_allowed_by_spec"],
+                     "expected": exp, "got": lab, "error": args[1] if name_ == "Raised" else None,
+                     "clause": _queue_clause(_Div(dlabel, labels[:pos])), "model": cname,
+                     "rest_of_history": labels[pos:]})  # fmt: skip
+    res.traces_validated += len(traces)
+    res.extra["queue_traces"] = [{
+        "model": cname, "batch": name, "histories_validated_step_by_step": len(full), "calls_validated": sum(len(t) for t in full),
+        "rejected_by_spec": len(stuck), "histories_pop_order_only": n_order, "pop_runs_judged": len(runs),
+        "histories_with_backwards_pops": len({b[0] for b in backwards}), "tlc_wall_s": round(r.wall_s, 1),
+    }]  # fmt: skip
+    res.extra["_trace_counts"] = [{"pops_at_queue_length": {str(k): v for k, v in qlens.items()},
+                                   "removes_at_queue_length": {str(k): v for k, v in removes_at.items()}}]  # fmt: skip
+    res.extra["_divs"] = divs
+    res.extra["_order"] = orders
+    if name == "t0" and traces:
+        res.extra["_sample"] = [{"model": cname, "mode": "recorded history " + ("rejected" if 1 in stuck else "accepted by the spec"),
+                                 "replayed_path": labels_of(traces[0])}]  # fmt: skip
+    return res
+
+
+def _queue_simulate_job(scratch, tier, cname):
+    """`tlc -simulate` on the deep configuration: the invariants / action properties on random
+    behaviours with long queues (the state space is far too large to enumerate)."""
+    res = CheckResult(PID, tier)
+    mod, cf = mcgen.write_mc(
+        scratch, "EventQueue", _queue_consts(QUEUE_CFG[cname]), name=f"MC_EventQueueSim_{cname}",
+        invariants=QUEUE_INV, properties=QUEUE_PROP,
+    )  # fmt: skip
+    num = 80 if tier == "quick" else 5000
+    r = tlc.run_tlc(mod, cf, workers=2 if tier == "quick" else 8, simulate=f"num={num}", depth=80, seed=1 + rng("c16:sim").randrange(10**6),
+                    java_opts=JOPTS, timeout=3000)  # fmt: skip
+    res.extra["tlc_simulations"] = [{"name": f"EventQueue/{cname}", "behaviours": num, "depth": 80, "ok": r.ok,
+                                     "wall_s": round(r.wall_s, 1)}]  # fmt: skip
+    if not r.ok:
+        _spec_violation(res, r, f"EventQueue simulation ({cname} constants)", QUEUE_CLAUSE, "C16.pop_min")
+    return res
 
 
 _GRAPHS = {}  # cname -> (graph, keytab); filled before forking the replay workers
@@ -884,6 +1181,10 @@ def _stage1(kind, scratch, tier, *a):
         r, dot, keytab = _queue_mc(scratch, tier, *a)
         r.extra["_dot"] = {a[0]: [dot, [[list(k), list(v)] for k, v in keytab.items()]]}
         return r
+    if kind == "queue_traces":
+        return _queue_traces_job(scratch, tier, *a)
+    if kind == "queue_sim":
+        return _queue_simulate_job(scratch, tier, *a)
     raise AssertionError(kind)
 
 
@@ -915,6 +1216,9 @@ def run(tier: str) -> CheckResult:
         jobs = [("queue_mc", scratch, tier, "paths", True), ("queue_mc", scratch, tier, wide, True)]
         if not q:  # model-checked only: the graph is too large to dump
             jobs.append(("queue_mc", scratch, tier, "wide_thorough", False))
+        nt, n_full, n_order = (2, 400, 2600) if q else (6, 5000, 45000)
+        jobs += [("queue_traces", scratch, tier, "deep", f"t{k}", n_full, n_order, k) for k in range(nt)]
+        jobs += [("queue_sim", scratch, tier, "deep")]
         jobs += [("grid", scratch, tier), ("limbs", scratch, tier, "tiny"), ("limbs", scratch, tier, "boundary")]
         jobs += [("records", scratch, tier, f"b{i}", b) for i, b in enumerate(batches)]
         marks.append(("generated_calls", time.time()))
@@ -923,11 +1227,20 @@ def run(tier: str) -> CheckResult:
         dots = {}
         fails = {}
         rsamples = []
+        tdivs, torders, tsamples = [], [], []
+        tcounts = collections.defaultdict(collections.Counter)
         for p in parts:
             dots.update(p.extra.pop("_dot", {}))
             fails.update(p.extra.pop("_fails", {}))
             rsamples += p.extra.pop("_rec_sample", [])
+            tdivs += p.extra.pop("_divs", [])
+            torders += p.extra.pop("_order", [])
+            tsamples += p.extra.pop("_sample", [])
+            for c in p.extra.pop("_trace_counts", []):
+                for k, v in c.items():
+                    tcounts[k].update(v)
             res.merge(p)
+        res.extra["queue_traces_depth"] = {k: dict(sorted(v.items(), key=lambda kv: int(kv[0]))) for k, v in tcounts.items()}
         # --- T verdicts
         tally = _Tally(res, per_key=3)
         nfail = 0
@@ -998,7 +1311,7 @@ def run(tier: str) -> CheckResult:
             rjobs += [(tier, wide, "cover", (k, n4), 0, budget * 0.8) for k in range(n4)]
         covered = collections.defaultdict(set)
         counts = collections.defaultdict(collections.Counter)
-        qsamples, divs, orders = [], [], []
+        qsamples, divs, orders = list(tsamples), list(tdivs), list(torders)
         for p in parallel(_queue_replay_job, rjobs, procs=16):
             for k, v in p.extra.pop("_covered", {}).items():
                 covered[k] |= {tuple(x) for x in v}
@@ -1055,7 +1368,12 @@ def replay(d: dict) -> int:
             still = last not in det["expected"]
             print(f"spec allows {det['expected']}; code answered {last}: {'STILL DEVIATES' if still else 'now conforms'}")
             return 1 if still else 0
-        return 1 if ad.order_violations else 0
+        if det.get("then"):  # pop-order counterexample: does the history end with the same pop again?
+            still = last == det["then"]
+            print(f"recorded: {det['first']} {det['first_key_us_type']} then {det['then']} {det['then_key_us_type']}; "
+                  f"code now answers {last}: {'STILL DEVIATES' if still else 'now conforms'}")
+            return 1 if still else 0
+        return 0
     if "op" in det:  # grid case
         args = [mk_time(v) if isinstance(v, list) else v for v in det["operands"]]
         op = det["op"]
